@@ -167,8 +167,11 @@ theorem lroInfo_imports_irrelevant (g : String → List String → List String) 
   rw [visible_reimport]
   rfl
 
-/-- a relative name denotes the message of that name in the method's package, wherever it is defined -/
-theorem lro_relative_in_package (api : Api) (f : File) (m : Method) (op : OpInfo)
+/-- a relative name denotes the message of that name in the method's package, wherever it is defined.
+PARTIAL: proved for relative names that are a single identifier (`'.' ∉ name`).  The full statement
+("any name relative to the package") is FALSE for the code: a relative name of a nested message
+(`Outer.Inner`) is taken as absolute — see `relative_nested_counterexample` (recorded finding). -/
+theorem lro_relative_in_package_partial (api : Api) (f : File) (m : Method) (op : OpInfo)
     (hout : isOperation m.output = true) (hinfo : m.opInfo = some op)
     (hr : op.response ≠ []) (hm : op.metadata ≠ [])
     (hrrel : '.' ∉ op.response) (hmrel : '.' ∉ op.metadata)
